@@ -14,6 +14,7 @@ type verifRemote struct {
 	addr     *net.UDPAddr
 	id       krpc.ID
 	answers  bool
+	errs     bool   // answers get_peers with a KRPC error instead of a response
 	token    string // "" = answers without a token
 	values   bool
 	lists    []int // remotes it lists in nodes
@@ -51,6 +52,10 @@ func (n *verifC16Net) absorb() {
 		case "get_peers":
 			r.gotGP++
 			verifAssert(w.msg.A != nil && w.msg.A.InfoHash == n.ih, "C16: get_peers carries the announced infohash")
+			if r.errs {
+				n.pending = append(n.pending, verifDatagram{b: verifEncode(krpc.Msg{Y: "e", T: w.msg.T, E: &krpc.Error{Code: 201, Msg: "generic"}}, 60), n: -1, addr: r.addr})
+				continue
+			}
 			if !r.answers {
 				continue
 			}
@@ -101,7 +106,13 @@ func verifC16(closeAt int, count int) {
 	n := &verifC16Net{v: v}
 	n.ih = krpc.ID{0x11, 0x22, 0x33, 0x44, 0x55}
 	for i := 0; i < count; i++ {
-		r := &verifRemote{addr: &net.UDPAddr{IP: net.IP{10, 7, 0, byte(i + 1)}, Port: 6000 + i}, answers: verifNondetBool()}
+		r := &verifRemote{addr: &net.UDPAddr{IP: net.IP{10, 7, 0, byte(i + 1)}, Port: 6000 + i}}
+		switch verifChoice(0, 2) {
+		case 1:
+			r.answers = true
+		case 2:
+			r.errs = true // a KRPC error is not a response: nothing to deliver, nobody to announce to
+		}
 		r.id = n.ih
 		r.id[19] = byte(i + 1)
 		if verifNondetBool() {
